@@ -53,6 +53,7 @@ type c18Table struct {
 	referenced []sql.ForeignKeyConstraint
 
 	begun, discarded, completed int
+	edits                       int // successful Insert / Update / Delete calls
 	badLookup                   bool
 }
 
@@ -183,6 +184,7 @@ func (t *c18Table) Insert(_ *sql.Context, row sql.Row) error {
 		return sql.NewUniqueKeyErr("[k]", true, row)
 	}
 	t.rows = append(t.rows, row.Copy())
+	t.edits++
 	return nil
 }
 
@@ -195,6 +197,7 @@ func (t *c18Table) Delete(_ *sql.Context, row sql.Row) error {
 	rows = append(rows, t.rows[:i]...)
 	rows = append(rows, t.rows[i+1:]...)
 	t.rows = rows
+	t.edits++
 	return nil
 }
 
@@ -210,6 +213,7 @@ func (t *c18Table) Update(_ *sql.Context, old, new sql.Row) error {
 		return sql.NewUniqueKeyErr("[k]", true, new)
 	}
 	t.rows[i] = new.Copy()
+	t.edits++
 	return nil
 }
 
@@ -322,6 +326,7 @@ type c18Store interface {
 	dump(ctx *sql.Context) ([]c18Row, bool)
 	sound() bool
 	// ended: the statement protocol reached this table consistently with the outcome
+	// (begin, then exactly one of complete / discard); a table the statement edited took part in it
 	ended(failed bool) bool
 	began() bool
 }
@@ -338,7 +343,9 @@ func (t *c18Table) sound() bool                        { return !t.badLookup }
 func (t *c18Table) began() bool                        { return t.begun == 1 }
 func (t *c18Table) ended(failed bool) bool {
 	if t.begun == 0 {
-		return t.completed == 0 && t.discarded == 0
+		// a table outside the statement's updaters must not have been edited:
+		// nobody would roll it back or complete it
+		return t.completed == 0 && t.discarded == 0 && t.edits == 0
 	}
 	if failed {
 		return t.begun == 1 && t.discarded == 1 && t.completed == 0
